@@ -66,6 +66,15 @@ fn core(prop: &str, tier: u8) -> &'static Vec<SProg> {
             v.extend(enumerate(2, 2, &*pk, &well_formed));
             let lk = alphabet_for("C07");
             v.extend(enumerate(2, 2, &*lk, &well_formed));
+            // a yield that finds nobody to yield to (the only other thread is blocked on the lock the yielding thread holds) is
+            // over when it returns: the thread's next operations race with the other thread like any others
+            for yields in [2usize, 3] {
+                let mut main = vec![Lock(0), Unpark(1)];
+                main.extend(std::iter::repeat(Yield).take(yields));
+                main.extend([Unlock(0), TryLock(0), SkipUnlessLast(1, 1), AStore(0, 1), Unlock(0), Join(1)]);
+                v.push(sp(vec![main, vec![Park, Lock(0), ALoad(0), Unlock(0)]]));
+            }
+            v.push(sp(vec![vec![Write, Unpark(1), Yield, Yield, RwUnlock, TryWrite, SkipUnlessLast(1, 1), AStore(0, 1), RwUnlock, Join(1)], vec![Park, Read, ALoad(0), RwUnlock]]));
             // a try_lock that fails first and succeeds once the holder - which waits inside its critical section for the
             // try-locker's message / for a third thread - has released
             v.push(sp(vec![vec![Lock(0), Recv, Unlock(0), Join(1)], vec![Send(11), TryLock(0), Unlock(0)]]));
